@@ -1,9 +1,10 @@
 from checks import finite
+from checks.e3num import run_e3num
 from checks.generic import run_components
 
-ASSUME = ["A-INT: Python/numpy ints treated as mathematical integers", "A-FLOAT: floats treated as reals"]
+ASSUME = ["E3 numeric (kernel executed on pseudo-random affine simplex data vs an independent UFL/basix reference) is bounded: corpus forms, fixed seeds, rtol 1e-9", "A-INT: Python/numpy ints treated as mathematical integers", "A-FLOAT: floats treated as reals"]
 
 
 def run(tier, seed):
-    return run_components("C01", tier, seed, ["e1", finite.c03_table_predicates, "e2", lambda rep, t, s: __import__("checks.e3ir", fromlist=["x"]).run_e3ir(rep, "C01", t)], ASSUME,
+    return run_components("C01", tier, seed, ["e1", finite.c03_table_predicates, "e2", run_e3num, lambda rep, t, s: __import__("checks.e3ir", fromlist=["x"]).run_e3ir(rep, "C01", t)], ASSUME,
                           ["kernelvc (E2 walker; scoping mirrors C/formatter.py)", "UFL form data as oracle for extents"])
